@@ -284,7 +284,7 @@ func (mp *MultiProof) Read(r io.Reader) error {
 	}
 	// Check that the next read is EOF.
 	var buf [1]byte
-	if _, err := r.Read(buf[:]); err != io.EOF {
+	if n, err := r.Read(buf[:]); n != 0 || err != io.EOF {
 		return errors.New("expected EOF")
 	}
 
